@@ -97,6 +97,9 @@ func (m *Map[K, V]) Delete(key K) {
 }
 
 func (m *Map[K, V]) Range(f func(key K, value V) bool) bool {
+	if handled, all := verifRange(m, f); handled {
+		return all
+	}
 	isRangeAll := true
 	m.m.Range(func(key, value any) bool {
 		fBool := f(key.(K), value.(V))
